@@ -80,6 +80,7 @@ class Sim:
         self.on_idle = None  # optional hook called when the clock is about to jump
         self._by_ident: dict[int, Task] = {}
         self._in_sched = False  # wake predicates may call traced halmos code: never pre-empt there
+        self.idle_labels = {"pool.idle"}
 
     # ------------------------------------------------------------------ bookkeeping
     def fault(self, kind: str, n: int = 1):
@@ -230,6 +231,13 @@ class Sim:
             nt = self._next_time()
             if nt == INF:
                 self.deadlock_info = [f"{t.name}:{t.label}" for t in self.tasks if t.state == "blocked"]
+                # idle workers of a thread pool nobody shut down are not a hang: in the stdlib they are reaped
+                # when the executor is collected / at interpreter exit
+                if all(t.state == "done" or (t.state == "blocked" and t.label in self.idle_labels)
+                       for t in self.tasks if not t.is_main) and any(
+                        t.is_main and t.label == "main-wait-all" and t.state != "done" for t in self.tasks):
+                    self._abort("done")
+                    raise SimAbort()
                 if all(t.state == "done" for t in self.tasks):
                     self._abort("done")
                 else:
